@@ -1190,173 +1190,135 @@ Proof.
 Qed.
 
 (* ====================================================================== *)
-(** * 12. Examples: the theorems are not vacuous                            *)
+(** * 12. The open contract is met by every file the model itself closed     *)
 (* ====================================================================== *)
 
-(* 2 ranks, CDF-1, move unit 7, an alignment hint; create, dims (one unlimited), a fixed and a
-   record variable, an attribute, enddef; collective put, independent put on rank 1 (vars),
-   a grouped collective put (var1 on rank 0, varn on rank 1); redef, fill mode, two new variables,
-   enddef with arguments (data movement); fill_var_rec; get; close; open for writing *)
-Definition ex_cs : list cmd :=
-  [ CMoveUnit 7;
-    CStep (SAll (OHint 0 64));
-    CStep (SAll (OCreate 0 1 1));
-    CStep (SAll (ODefDim 0 [116] 0));
-    CStep (SAll (ODefDim 0 [120] 4));
-    CStep (SAll (ODefVar 0 [97] 4 [1]));
-    CStep (SAll (ODefVar 0 [114] 3 [0; 1]));
-    CStep (SAll (OPutAtt 0 0 [117] 2 [109; 47; 115]));
-    CStep (SAll (OEnddef 0));
-    CStep (SAll (OPut 0 true (mkacc 0 (FVara (Some [0]) (Some [4])) 4 false BTyped 3)));
-    CStep (SAll (OBeginIndep 0));
-    CStep (SOne 1 (OPut 0 false (mkacc 1 (FVars (Some [2; 1]) (Some [2; 2]) (Some [1; 2])) 3 false BTyped 5)));
-    CStep (SAll (OEndIndep 0));
-    CStep (SEach [OPut 0 true (mkacc 1 (FVar1 (Some [0; 0])) 3 false BTyped 1);
-                  OPut 0 true (mkacc 1 (FVarn [([5; 0], [1; 4])]) 3 false BTyped 2)]);
-    CStep (SAll (ORedef 0));
-    CStep (SAll (OSetFill 0 0));
-    CStep (SAll (ODefVar 0 [98] 6 [1]));
-    CStep (SAll (ODefVar 0 [115] 4 [0]));
-    CStep (SAll (OEnddefX 0 100 0 0 64));
-    CStep (SAll (OFillVarRec 0 3 7));
-    CStep (SAll (OGet 0 true (mkacc 0 FVar 4 false BTyped 0)));
-    CStep (SAll (OClose 0));
-    CStep (SAll (OOpen 0 1)) ].
-
-Example ex_run_ok : run_ok (world0 2) ex_cs = true.
-Proof. vm_compute. reflexivity. Qed.
-
-Definition ex_w : world := run (world0 2) ex_cs.
-Definition ex_f : filest := match znth (w_files ex_w) 0 None with Some f => f | None => dflt_file end.
-
-(* the final world has an open, untainted file in data mode, collective, with 4 variables, 8
-   records, an encodable header of 224 bytes and the layout computed by the second enddef *)
-Example ex_final :
-  znth (w_files ex_w) 0 None = Some ex_f /\
-  f_indef ex_f = false /\ f_tainted ex_f = false /\ f_indep ex_f = false /\
-  Zlen (h_vars (f_hdr ex_f)) = 4 /\ h_numrecs (f_hdr ex_f) = 8 /\ wf_hdr (f_hdr ex_f) = true /\
-  hdr_len (f_hdr ex_f) = 224 /\
-  f_lay ex_f = mklayout 224 384 448 12 [384; 448; 400; 456] /\
-  map rk_numrecs (f_ranks ex_f) = [8; 8].
-Proof. vm_compute. repeat split; reflexivity. Qed.
-
-Example ex_world_inv : world_inv ex_w := reachable_inv 2 ex_cs ltac:(lia) ex_run_ok.
-
-Example ex_header_on_disk :=
-  reachable_header_on_disk 2 ex_cs 0 ex_f ltac:(lia) ex_run_ok
-    (proj1 ex_final) (proj1 (proj2 (proj2 ex_final))) (proj1 (proj2 ex_final))
-    (proj1 (proj2 (proj2 (proj2 (proj2 (proj2 (proj2 ex_final))))))).
-
-Example ex_layout :=
-  reachable_layout_ok_all 2 ex_cs 0 ex_f ltac:(lia) ex_run_ok
-    (proj1 ex_final) (proj1 (proj2 (proj2 ex_final))) (proj1 (proj2 ex_final)).
-
-(* the state just before the second enddef: define mode after a redef, old header saved *)
-Definition ex_cs_redef : list cmd := firstn 18 ex_cs.
-Definition ex_w_redef : world := run (world0 2) ex_cs_redef.
-Definition ex_f_redef : filest :=
-  match znth (w_files ex_w_redef) 0 None with Some f => f | None => dflt_file end.
-
-Example ex_redef_state :
-  run_ok (world0 2) ex_cs_redef = true /\
-  znth (w_files ex_w_redef) 0 None = Some ex_f_redef /\
-  f_indef ex_f_redef = true /\ f_tainted ex_f_redef = false /\
-  match f_old ex_f_redef with
-  | Some (oh, ol) => Zlen (h_vars oh) = 2 /\ h_numrecs oh = 6 /\ l_begins ol = [128; 144]
-  | None => False end /\
-  Zlen (h_vars (f_hdr ex_f_redef)) = 4.
-Proof. vm_compute. repeat split; reflexivity. Qed.
-
-(* ====================================================================== *)
-(** * 13. Why the contract step_ok is needed: counterexamples (model findings) *)
-(* ====================================================================== *)
-
-(** (a) create with clobber on the slot of a file that is still open: the model resets the disk
-    and leaves the first file open in data mode on an empty disk.  step_ok rejects the step. *)
-Definition cex_alias_cs : list cmd :=
-  [ CStep (SAll (OCreate 0 1 1)); CStep (SAll (ODefDim 0 [120] 4)); CStep (SAll (OEnddef 0));
-    CStep (SAll (OCreate 0 1 1)) ].
-
-Example cex_alias :
-  run_ok (world0 1) cex_alias_cs = false /\
-  let w := run (world0 1) cex_alias_cs in
-  exists f, znth (w_files w) 0 None = Some f /\ f_indef f = false /\ f_tainted f = false /\
-            wf_hdr (f_hdr f) = true /\ hdr_len (f_hdr f) = 44 /\ dk_size (disk_of w f) = 0.
-Proof. split; [vm_compute; reflexivity|]. eexists. vm_compute. repeat split; reflexivity. Qed.
-
-Corollary cex_alias_not_inv : ~ world_inv (run (world0 1) cex_alias_cs).
+Lemma contig_b_complete : forall l e, contig e l -> contig_b e l = true.
 Proof.
-  intros Hw. destruct cex_alias as [_ (f & Hz & Hindef & Ht & Hwf & Hl & Hs)].
-  destruct (inv_header_on_disk _ 0 f Hw Hz Ht Hindef Hwf) as [(_ & D2 & _) _]. lia.
+  induction l as [|[b len] r IH]; intros e H; cbn [contig_b contig] in *; [reflexivity|].
+  destruct H as [-> H]. rewrite Z.eqb_refl. cbn [andb]. apply IH. exact H.
 Qed.
 
-(** (b) a put whose count array is shorter than its start array: the model checks only the
-    zipped entries, accepts start = [0; -3], count = [1] on a 2-D variable (return code NC_NOERR)
-    and writes 12 bytes BELOW the variable's begin - into the header when the variable starts
-    right after it (h_align 4).  The C arrays have ndims entries by contract; step_ok demands
-    lists of ndims entries. *)
-Definition cex_put_cs : list cmd :=
-  [ CStep (SAll (OHint 0 4));
-    CStep (SAll (OCreate 0 1 1)); CStep (SAll (ODefDim 0 [120] 4)); CStep (SAll (ODefDim 0 [121] 5));
-    CStep (SAll (ODefVar 0 [118] 4 [0; 1])); CStep (SAll (OEnddef 0)) ].
-Definition cex_put_step : step :=
-  SAll (OPut 0 true (mkacc 0 (FVara (Some [0; -3]) (Some [1])) 4 false BTyped 1)).
-
-Example cex_put :
-  run_ok (world0 1) cex_put_cs = true /\
-  step_ok (run (world0 1) cex_put_cs) cex_put_step = false /\
-  let w := run (world0 1) cex_put_cs in
-  let w' := fst (exec_step w cex_put_step) in
-  map (fun o : obs => snd (fst o)) (snd (exec_step w cex_put_step)) = [NC_NOERR] /\
-  exists f, znth (w_files w') 0 None = Some f /\ f_tainted f = false /\ wf_hdr (f_hdr f) = true /\
-    hdr_len (f_hdr f) = 96 /\ l_begins (f_lay f) = [96] /\
-    bytes_eqb (dk_read (disk_of w f) 0 96) (encode_header (f_hdr f)) = true /\
-    bytes_eqb (dk_read (disk_of w' f) 0 96) (encode_header (f_hdr f)) = false.
+Lemma lay_inv_b_complete : forall t3 lay, lay_inv t3 lay -> lay_inv_b t3 lay = true.
 Proof.
-  split; [vm_compute; reflexivity|]. split; [vm_compute; reflexivity|].
-  cbv zeta. split; [vm_compute; reflexivity|]. eexists. vm_compute. repeat split; reflexivity.
+  intros t3 lay (H1 & H2 & H3 & H4 & H5 & H6 & H7 & H8). unfold lay_inv_b. cbv zeta.
+  rewrite H1, Nat.eqb_refl, H3, (contig_b_complete _ _ H7). cbn [andb].
+  rewrite <- H4, <- H8, !Z.eqb_refl.
+  replace (l_xsz lay <=? l_begin_var lay) with true by lia.
+  replace (last_end (l_begin_var lay) (sel false (map fst t3) (l_begins lay)) <=? l_begin_rec lay) with true by lia.
+  replace (l_begin_rec lay mod 4 =? 0) with true by lia. reflexivity.
 Qed.
 
-(** (c) the model's create accepts any format number; with format 3 the encoder writes version
-    byte 1 but 8-byte begins, and the file does not decode to the header in memory.  The
-    on-disk clause of the invariant is conditional on wf_hdr, which demands format 1, 2 or 5. *)
-Example cex_format :
-  let cs := [ CStep (SAll (OCreate 0 3 1)); CStep (SAll (ODefDim 0 [120] 4));
-              CStep (SAll (ODefVar 0 [118] 4 [0])); CStep (SAll (OEnddef 0)) ] in
-  run_ok (world0 1) cs = true /\
-  let w := run (world0 1) cs in
-  exists f, znth (w_files w) 0 None = Some f /\ f_indef f = false /\ wf_hdr (f_hdr f) = false /\
-    map v_begin (h_vars (f_hdr f)) = [512] /\
-    option_map (fun dc => map v_begin (h_vars (dc_hdr dc)))
-               (decode (dk_read (disk_of w f) 0 (dk_size (disk_of w f)))) = Some [0].
-Proof. cbv zeta. split; [vm_compute; reflexivity|]. eexists. vm_compute. repeat split; reflexivity. Qed.
+Lemma var_good_b_complete : forall dims v, var_good dims v -> var_good_b dims v = true.
+Proof.
+  intros dims v (H1 & H2 & H3). unfold var_good_b. rewrite !andb_true_iff. repeat split; try lia.
+  - apply Forall_forallb. eapply Forall_impl; [|exact H2]. intros d Hd. cbn beta in *. lia.
+  - apply Forall_forallb. eapply Forall_impl; [|exact H3]. intros d Hd. cbn beta in *. lia.
+Qed.
 
-(** (d) sizes the format cannot hold are accepted by the model's guards: a CDF-5 dimension of
-    2^64 (def_dim has no upper bound for format 5) reads back as 0; a CDF-1 record count of 2^32
-    (start 2^32 - 1 passes the NC_MAX_UINT check) reads back as 0.  wf_hdr is false in both
-    states, so the invariant claims nothing about the bytes on disk. *)
-Example cex_dim_size :
-  let w := run (world0 1) [CStep (SAll (OCreate 0 5 1));
-                           CStep (SAll (ODefDim 0 [120] 18446744073709551616)); CStep (SAll (OEnddef 0))] in
-  exists f, znth (w_files w) 0 None = Some f /\ f_indef f = false /\ f_tainted f = false /\
-    wf_hdr (f_hdr f) = false /\ map d_size (h_dims (f_hdr f)) = [18446744073709551616] /\
-    option_map (fun dc => map d_size (h_dims (dc_hdr dc)))
-               (decode (dk_read (disk_of w f) 0 (dk_size (disk_of w f)))) = Some [0].
-Proof. cbv zeta. eexists. vm_compute. repeat split; reflexivity. Qed.
+Lemma hdr_good_b_complete : forall h, hdr_good h -> hdr_good_b h = true.
+Proof.
+  intros h (H1 & H2 & H3). unfold hdr_good_b. rewrite !andb_true_iff. repeat split; try lia.
+  - apply Forall_forallb. eapply Forall_impl; [|exact H1]. intros d Hd. cbn beta in *. lia.
+  - apply Forall_forallb. eapply Forall_impl; [|exact H2]. intros v Hv. apply var_good_b_complete. exact Hv.
+Qed.
 
-Example cex_numrecs :
-  let w := run (world0 1) [CStep (SAll (OCreate 0 1 1)); CStep (SAll (ODefDim 0 [116] 0));
-      CStep (SAll (ODefVar 0 [118] 1 [0])); CStep (SAll (OEnddef 0));
-      CStep (SAll (OPut 0 true (mkacc 0 (FVar1 (Some [4294967295])) 1 false BTyped 1)))] in
-  exists f, znth (w_files w) 0 None = Some f /\ f_indef f = false /\ f_tainted f = false /\
-    wf_hdr (f_hdr f) = false /\ h_numrecs (f_hdr f) = 4294967296 /\
-    option_map (fun dc => h_numrecs (dc_hdr dc)) (decode (dk_read (disk_of w f) 0 200)) = Some 0.
-Proof. cbv zeta. eexists. vm_compute. repeat split; reflexivity. Qed.
+Lemma hdr_good_content : forall h, hdr_good h -> hdr_good (hdr_content h).
+Proof.
+  intros h Hg. apply (hdr_good_key h (hdr_content h) Hg); try reflexivity.
+  unfold hdr_content. cbn [h_vars]. rewrite map_map. reflexivity.
+Qed.
 
-Print Assumptions exec_step_preserves_inv.
-Print Assumptions reachable_inv.
-Print Assumptions reachable_header_on_disk.
-Print Assumptions reachable_layout_ok_all.
-Print Assumptions reachable_put_get.
-Print Assumptions reachable_redef_preserves.
-Print Assumptions inv_layout.
+Lemma bytes_eqb_refl : forall l : list Z, bytes_eqb l l = true.
+Proof.
+  unfold bytes_eqb. induction l as [|x l IH]; [reflexivity|]. cbn [list_eqb].
+  rewrite Z.eqb_refl, IH. reflexivity.
+Qed.
+
+(* a record variable the guards accept is not empty *)
+Lemma rec_var_len_pos : forall h v, hdr_good h -> In v (rec_vars h) -> 0 < var_len (h_dims h) v.
+Proof.
+  intros h v (G1 & G2 & _) Hin. unfold rec_vars in Hin. apply filter_In in Hin. destruct Hin as [Hin Hrec].
+  rewrite Forall_forall in G2. destruct (var_good_geom _ v G1 (G2 v Hin)) as [Hx Hdw].
+  pose proof (var_len_unpadded (h_dims h) v) as [[Hu _] _].
+  unfold unpadded, var_nelems_per_rec in Hu. unfold is_recvar in Hrec. unfold dims_wf in Hdw.
+  destruct (var_shape (h_dims h) v) as [|s0 ss]; [discriminate Hrec|]. rewrite Hrec in Hu.
+  destruct Hdw as [_ Hss]. pose proof (Proofs_Lists.zprod_pos ss Hss). nia.
+Qed.
+
+(** the disk of a file in data mode with an encodable header below 64 KiB passes the validation
+    of open, also after the truncation close applies to a file without variables *)
+Lemma open_ok_of_data_ok : forall d d' h lay,
+  hdr_good h -> data_ok d h lay -> wf_hdr h = true -> hdr_len h <= 65536 ->
+  dk_exists d' = true -> hdr_len h <= dk_size d' ->
+  dk_read d' 0 (hdr_len h) = encode_header h ->
+  open_ok d' = true.
+Proof.
+  intros d d' h lay Hg (L1 & L2 & L3 & L4 & _) Hwf Hsmall D1 D2 D3.
+  pose proof Hg as (G1 & _).
+  unfold open_ok. rewrite D1. cbn [negb orb].
+  rewrite (open_decodes_header d' h Hwf D3 D2 Hsmall). cbv zeta.
+  change (dc_hdr (decoded_of h)) with (hdr_content h).
+  change (dc_len (decoded_of h)) with (Zlen (encode_header h)).
+  rewrite <- (hdr_len_encode h Hwf), hdr_len_content, wf_hdr_content, Hwf, t3of_content.
+  rewrite (hdr_good_b_complete _ (hdr_good_content h Hg)), Z.eqb_refl.
+  replace (hdr_len h <=? dk_size d') with true by lia.
+  rewrite D3, encode_header_content, bytes_eqb_refl. cbn [andb].
+  rewrite layout_of_hdr_content.
+  assert (Hcases : h_vars h = [] \/ h_vars h <> []) by (destruct (h_vars h); [left; reflexivity|right; discriminate]).
+  destruct Hcases as [Hnil|Hne].
+  - assert (Et : t3of h = []) by (unfold t3of; rewrite Hnil; reflexivity).
+    unfold hdr_content. cbn [h_vars]. rewrite Hnil. cbn [map]. rewrite andb_true_r.
+    unfold layout_of_hdr. rewrite Hnil. cbv zeta. cbn [filter]. rewrite Et.
+    unfold lay_inv_b, lay_core. cbn [l_xsz l_begin_var l_begin_rec l_recsize l_begins map sel length
+      begins_increasing last_end contig_b Nat.eqb andb].
+    replace (Z.min (hdr_len h) 0 <=? 0) with true by lia. reflexivity.
+  - pose proof (L2 Hne) as Hinv.
+    destruct (layout_of_hdr_agrees h lay G1 Hinv L3 Hne (fun v Hv => rec_var_len_pos h v Hg Hv)) as [_ Hinv'].
+    rewrite L4 in Hinv'.
+    rewrite (lay_inv_b_complete _ _ (lay_inv_core _ _ Hinv')), (lay_inv_b_complete _ _ Hinv'). cbn [andb].
+    unfold hdr_content. cbn [h_vars]. destruct (h_vars h); [contradiction|reflexivity].
+Qed.
+
+Lemma slot_free_after_remove : forall w id f x, world_inv w -> znth (w_files w) id None = Some f ->
+  slot_free (put_file (set_disk w (f_slot f) x) id None) (f_slot f) = true.
+Proof.
+  intros w id f x (_ & _ & _ & Hdist & _) Hz. pose proof (rz_znth_some_range _ _ _ _ Hz) as Hid.
+  unfold slot_free. apply forallb_forall. intros o Ho.
+  destruct (In_znth _ o None Ho) as (j & Hj & Ej).
+  destruct o as [g|]; [|reflexivity].
+  destruct (Z.eq_dec j id) as [E|E].
+  - subst j. rewrite znth_put_set_same in Ej by exact Hid. discriminate Ej.
+  - rewrite znth_put_file_other in Ej by lia. rewrite w_files_set_disk in Ej.
+    destruct (Z.eqb_spec (f_slot g) (f_slot f)) as [Es|Es]; [|reflexivity].
+    exfalso. apply E. exact (Hdist j id g f Ej Hz Es).
+Qed.
+
+(** close; open: in every reachable state, closing a file (data mode, no numrecs sync pending)
+    whose header is encodable and below 64 KiB leaves a world in which the open of its slot
+    satisfies the contract op_ok - so reopening what the model wrote is always covered. *)
+Theorem inv_close_open_ok : forall w id f mode,
+  world_inv w -> znth (w_files w) id None = Some f -> f_tainted f = false ->
+  f_indef f = false -> negb (f_rdonly f) && f_indep f = false ->
+  wf_hdr (f_hdr f) = true -> hdr_len (f_hdr f) <= 65536 ->
+  do_close w id f = Some (close_world w id f, close_obs w f) /\
+  world_inv (close_world w id f) /\
+  op_ok (close_world w id f) (OOpen (f_slot f) mode) = true.
+Proof.
+  intros w id f mode Hw Hz Ht Hindef Hsync Hwf Hsmall.
+  pose proof (do_close_data_eq w id f Hindef Hsync Hz) as Ec.
+  split; [exact Ec|].
+  destruct (do_close_frame w id f _ _ Hz Ec) as [Fr Hn].
+  split; [exact (inv_remove w _ id f Hw Hz Fr Hn)|].
+  pose proof (file_inv_of_znth w id f Hw Hz Ht) as (Hslot & Hg & _ & _ & Hm).
+  rewrite Hindef in Hm. destruct Hm as (_ & _ & O3).
+  pose proof O3 as (_ & _ & _ & L4 & L5).
+  destruct (close_disk_header w f (L5 Hwf) L4) as (C1 & C2 & C3).
+  assert (Ed : get_disk (close_world w id f) (f_slot f) = close_disk w f).
+  { unfold close_world. apply get_disk_put_set_same. exact Hslot. }
+  cbn [op_ok]. rewrite Ed, C1. cbn [negb orb].
+  rewrite !andb_true_iff. split; [split|].
+  - unfold slot_in_range, close_world. rewrite w_disks_put_file, Zlen_w_disks_set_disk. lia.
+  - unfold close_world. apply slot_free_after_remove; assumption.
+  - exact (open_ok_of_data_ok (disk_of w f) (close_disk w f) (f_hdr f) (f_lay f) Hg O3 Hwf Hsmall C1 C2 C3).
+Qed.
